@@ -42,5 +42,11 @@ TTune ==
                  FClose(Ev.imm[i][j], RegCov(Ev.hist[i], Ev.hist[j], i = j), "2e-3", "2e-4"))
   /\ Step
 
-TNext == TTune
+\* a fast-adaptation epoch that follows the tuning of the matrix adapts the step size only
+TFastKeep ==
+  /\ IsEvent("fast_keep")
+  /\ Chk("mass_matrix_unchanged_by_a_fast_adaptation_epoch", Ev.after = Ev.before)
+  /\ Step
+
+TNext == TTune \/ TFastKeep
 =============================================================================
